@@ -339,7 +339,9 @@ func (g *G) fileEntry(i int, typ string) *Content {
 			match = func(rel string) bool { return strings.HasPrefix(rel, "lib") && strings.HasSuffix(rel, e1) }
 		case 5: // single match
 			pat = "c*" + e2
-			match = func(rel string) bool { return !strings.Contains(rel, "/") && rel[0] == 'c' && strings.HasSuffix(rel, e2) }
+			match = func(rel string) bool {
+				return !strings.Contains(rel, "/") && rel[0] == 'c' && strings.HasSuffix(rel, e2)
+			}
 		}
 		g.c.Feature(fmt.Sprintf("glob-kind-%d", kind))
 		c.Src = filepath.Join(root, sd) + "/" + pat
